@@ -1,7 +1,8 @@
 (* C29 - the CAS-backed filesystem view.  Executable model of src/remote/fs/fs.go and info.go:
    New/ChangeDir, Open/open (symlink following with the follow counter), FindNode/findNode, Stat,
    dir.ReadDir with its offset, and of the three path/filepath functions the code calls
-   (Clean, Join, Dir - Unix).  No proofs here.
+   (Clean, Join, Dir - Unix); and the views as objects: a store of views with ChangeDir (as
+   translated by gotrans from its body) / Open / Stat / ReadDir histories.  No proofs here.
 
    Digests.  New() stores every directory under digest.NewFromMessage(child), so the key under
    which a directory is found IS its digest; the model therefore uses opaque ids for digests (the
@@ -221,9 +222,18 @@ Fixpoint open_at (t : tree) (fuel : nat) (name : str) : res opened :=
 
 Definition max_symlinks : nat := Gen.CasFs.max_symlinks.
 
-(* ---- the working directory: New cleans it, ChangeDir stores it as given *)
+(* ---- the working directory: New cleans it; ChangeDir sets it as translated from the source
+   (Gen.CasFs.chdir_wd: 0 = the parameter as given, 1 = Clean of it, 2 = Join(receiver's, it)).
+   WChdir d is New(c, tree, ".").ChangeDir(d). *)
+Definition chdir_wd (old d : str) : str :=
+  match Gen.CasFs.chdir_wd with
+  | 0 => d
+  | 1 => clean d
+  | _ => go_join old d
+  end.
+
 Inductive wdspec := WNew (d : str) | WChdir (d : str).
-Definition fs_wd (w : wdspec) : str := match w with WNew d => clean d | WChdir d => d end.
+Definition fs_wd (w : wdspec) : str := match w with WNew d => clean d | WChdir d => chdir_wd (clean dot) d end.
 
 Definition fs_open (t : tree) (w : wdspec) (name : str) : res opened :=
   open_at t max_symlinks (go_join (fs_wd w) name).
@@ -277,7 +287,83 @@ Definition observe (t : tree) (o : res opened) : res open_obs :=
   | Panic => Panic
   end.
 
+(* ---------------------------------------------------------------------------------------------
+   views are values: New / ChangeDir / Open / Stat / ReadDir as a state machine over a store of
+   views.  A *CASFileSystem is a handle (the index of the object in the store, in creation order);
+   a view holds the Tree it was made from (c, root, directories) and its workingDir.  ChangeDir is
+   the translation of the source (Gen.CasFs.chdir_fresh / chdir_wd): it either allocates a new
+   object and returns its handle, or re-roots the receiver in place and returns the receiver. *)
+Definition view := (tree * str)%type.
+Definition store := list view.
+
+Definition new_view (t : tree) (w : wdspec) : view := (t, fs_wd w).
+
+Fixpoint set_nth {A} (l : list A) (n : nat) (x : A) : list A :=
+  match l, n with
+  | [], _ => []
+  | _ :: r, O => x :: r
+  | y :: r, S k => y :: set_nth r k x
+  end.
+
+Inductive query := QOpen (name : str) | QStat (name : str) | QReadDir (name : str) (ns : list Z).
+Inductive vop := VChdir (h : nat) (d : str) | VAsk (h : nat) (q : query).
+
+(* None: the name does not open as a directory *)
+Definition readdir_obs (t : tree) (wd name : str) (ns : list Z) : option (res (list (list info * bool))) :=
+  match open_at t max_symlinks (go_join wd name) with
+  | Ok (OpDir _ m) =>
+      match ns with
+      | [] => Some (Ok [])
+      | _ => match listing t m with
+             | Ok all => Some (Ok (readdir_seq all 0 ns))
+             | Err e => None
+             | Panic => Some Panic
+             end
+      end
+  | Panic => Some Panic
+  | _ => None
+  end.
+
+Inductive vobs :=
+| BNoView                                  (* no object with that handle *)
+| BView (h : nat)                          (* ChangeDir: the handle of the object it returned *)
+| BOpen (r : res open_obs)
+| BStat (r : res info)
+| BReadDir (r : option (res (list (list info * bool)))).
+
+(* what a view answers: a function of the view's value alone *)
+Definition answer (v : view) (q : query) : vobs :=
+  let '(t, wd) := v in
+  match q with
+  | QOpen name => BOpen (observe t (open_at t max_symlinks (go_join wd name)))
+  | QStat name => BStat (stat_at t (go_join wd name))
+  | QReadDir name ns => BReadDir (readdir_obs t wd name ns)
+  end.
+
+Definition ask (st : store) (h : nat) (q : query) : vobs :=
+  match nth_error st h with Some v => answer v q | None => BNoView end.
+
+Definition step (st : store) (op : vop) : store * vobs :=
+  match op with
+  | VAsk h q => (st, ask st h q)
+  | VChdir h d =>
+      match nth_error st h with
+      | None => (st, BNoView)
+      | Some v => let v' := (fst v, chdir_wd (snd v) d) in
+                  if Gen.CasFs.chdir_fresh then (st ++ [v'], BView (length st))
+                  else (set_nth st h v', BView h)
+      end
+  end.
+
+Fixpoint run (st : store) (ops : list vop) : store * list vobs :=
+  match ops with
+  | [] => (st, [])
+  | op :: r => let '(st1, ob) := step st op in
+               let '(st2, obs) := run st1 r in (st2, ob :: obs)
+  end.
+
 Inductive case :=
+| CSeq (t : tree) (w : wdspec) (ops : list vop) (obs : list vobs)
 | COpen (t : tree) (w : wdspec) (name : str) (r : res open_obs)
 | CStat (t : tree) (w : wdspec) (name : str) (r : res info)
 | CReadDir (t : tree) (w : wdspec) (name : str) (ns : list Z) (r : res (list (list info * bool)))
@@ -312,8 +398,19 @@ Definition obs_eqb (a b : open_obs) : bool :=
 
 Definition page_eqb (a b : list info * bool) : bool := infos_eqb (fst a) (fst b) && Bool.eqb (snd a) (snd b).
 
+Definition vobs_eqb (a b : vobs) : bool :=
+  match a, b with
+  | BNoView, BNoView => true
+  | BView h, BView k => Nat.eqb h k
+  | BOpen r, BOpen r' => res_eqb obs_eqb r r'
+  | BStat r, BStat r' => res_eqb info_eqb r r'
+  | BReadDir r, BReadDir r' => option_eqb (res_eqb (list_eqb page_eqb)) r r'
+  | _, _ => false
+  end.
+
 Definition check (c : case) : bool :=
   match c with
+  | CSeq t w ops obs => list_eqb vobs_eqb (snd (run [new_view t w] ops)) obs
   | COpen t w name r => res_eqb obs_eqb (observe t (fs_open t w name)) r
   | CStat t w name r => res_eqb info_eqb (fs_stat t w name) r
   | CReadDir t w name ns r =>
